@@ -79,7 +79,7 @@ func main() {
 			rules.Get(id)(r)
 		}()
 		stats := map[string]any{
-			"packages":          len(w.Roots),
+			"packages":           len(w.Roots),
 			"functions_in_scope": len(w.SrcFuncs()),
 		}
 		if c := r.Finish(*evdir, strings.Join(os.Args, " "), stats); c > exit {
